@@ -185,7 +185,7 @@ def hexToF64 (h : String) : Option Float := if h == "nan" then some (0.0 / 0.0) 
 def searchSpec (m : Metric) (live : List (Nat × V)) (dim : Nat) (q : V) (k ef : Nat) (res : List (Nat × String)) : Option String :=
   let finite := q.all Float32.isFinite
   let qnorm := (dot64 q q).sqrt
-  if !finite || live.any (fun p => p.2.length != q.length) || dim != dim || (needsNorm m && !(qnorm > 1e-10)) then none   -- outside the Spec's domain: one common dimension, finite query, non-zero query norm for cosine/dot
+  if !finite || live.any (fun p => p.2.length != q.length) || (needsNorm m && !(qnorm > 1e-10)) then none   -- outside the Spec's domain: one common dimension, finite query, non-zero query norm for cosine/dot
   else
     let ids := res.map (·.1)
     let ds := res.filterMap (fun r => hexToF64 r.2)
